@@ -18,7 +18,7 @@ REPO = os.environ.get("VERIF_REPO", "/repo")
 def verdict(m, tier, overlay, td):
     evd = os.path.join(td, "ev")
     env = dict(os.environ, GOFLAGS="-mod=mod", GOPROXY="off", GOSUMDB="off", GOTOOLCHAIN="local", GOWORK="off")
-    p = subprocess.run([os.path.join(VERIF, "bin/xpcheck"), "-property", m["property"], "-tier", tier, "-repo", REPO,
+    p = subprocess.run([os.environ.get("XPCHECK", os.path.join(VERIF, "bin/xpcheck")), "-property", m["property"], "-tier", tier, "-repo", REPO,
                         "-evidence-dir", evd, "-known", os.path.join(VERIF, "known_findings.json"),
                         "-overlay", overlay], capture_output=True, text=True, env=env)
     out = p.stdout + p.stderr
@@ -71,7 +71,7 @@ def run(m, tier):
         open(f, "w").write(new)
         evd = os.path.join(td, "ev")
         env = dict(os.environ, GOFLAGS="-mod=mod", GOPROXY="off", GOSUMDB="off", GOTOOLCHAIN="local", GOWORK="off")
-        p = subprocess.run([os.path.join(VERIF, "bin/xpcheck"), "-property", m["property"], "-tier", tier, "-repo", REPO,
+        p = subprocess.run([os.environ.get("XPCHECK", os.path.join(VERIF, "bin/xpcheck")), "-property", m["property"], "-tier", tier, "-repo", REPO,
                             "-evidence-dir", evd, "-known", os.path.join(VERIF, "known_findings.json"),
                             "-overlay", f'{m["file"]}={f}'], capture_output=True, text=True, env=env)
     out = p.stdout + p.stderr
